@@ -91,6 +91,35 @@ def class_twins(chk, prog):
     chk.ob("TWIN.class", f.ref, "QuaternionArray.from_rpy(A)[i] == normalised Quaternion.from_rpy(A[i])", from_rpy, module=QUAT, function="QuaternionArray.from_rpy", construct="from_rpy", line=f.node.lineno)
 
 
+def from_dcm_arms(chk, prog):
+    """TWIN.from_DCM: QuaternionArray(DCM=[R...]) row i equals Quaternion(dcm=R_i) for the default method on each of its four pivot arms.  The arm is selected
+    by a sample rotation (dominant scalar / x / y / z component) that decides every data-dependent test of BOTH implementations; the results compared are the
+    exact closed forms of that arm, so a sign or index slip in one row of a vectorised copy is found whatever the code looks like."""
+    from sa.lib import sample_oracle
+    import math
+    q, r = unit_syms("fq"), unit_syms("fr")
+    R = np.stack([E_ref(q), E_ref(r)])
+    f = prog.func(QUAT + "::QuaternionArray.from_DCM")
+    chk.touch(f)
+    dominant = {"w": (0.2, 0.25, 0.3), "x": (0.85, 0.25, 0.3), "y": (0.25, 0.85, 0.3), "z": (0.25, 0.3, 0.85)}
+    for name, (x_, y_, z_) in dominant.items():
+        def law(x_=x_, y_=y_, z_=z_, name=name):
+            w_ = math.sqrt(1 - x_ * x_ - y_ * y_ - z_ * z_)
+            vals = {"fqw": w_, "fqx": x_, "fqy": y_, "fqz": z_, "frw": w_, "frx": -x_, "fry": y_, "frz": -z_}
+            orc = sample_oracle(vals)
+            it = Interp(prog, oracle=orc)
+            arr = it.instantiate(prog.cls(QUAT + "::QuaternionArray"), [], {"DCM": R.copy()})
+            rows = to_obj(arr.attrs["array"])
+            outs = []
+            for i, qq in enumerate((q, r)):
+                it1 = Interp(prog, oracle=orc)
+                one = it1.instantiate(prog.cls(QUAT + "::Quaternion"), [], {"dcm": E_ref(qq).copy()})
+                outs.append(eq(rows[i], to_obj(one.attrs["A"]), "row %d on the arm with dominant %s" % (i, name)))
+            return all_of(*outs)
+        chk.ob("TWIN.from_DCM", "%s::dominant %s" % (f.ref, name), "QuaternionArray(DCM=R)[i] == Quaternion(dcm=R_i) on the pivot arm taken when %s dominates" % name, law,
+               module=QUAT, function="QuaternionArray.from_DCM", construct="default method, arm dominant %s" % name, line=f.node.lineno)
+
+
 def dcm2quat_twins(chk, prog):
     A, B = sym_mat("Ca", 3, 3), sym_mat("Cb", 3, 3)
     for name in ("chiaverini", "hughes"):
@@ -410,6 +439,7 @@ def run(chk, prog, tier):
                        "by np.sign(<q1,q2>) zeroes one operand; min(|q1-q2|, |q1+q2|) has no such hole")
     class_twins(chk, prog)
     dcm2quat_twins(chk, prog)
+    from_dcm_arms(chk, prog)
     estimator_twins(chk, prog)
     from props.c18 import metric_twins
     metric_twins(chk, prog)
